@@ -3,7 +3,7 @@ from __future__ import annotations
 import copy
 
 from .common import (COMPONENTS, EngineCrash, Monitor, Stuck, Violation, World, gen_config, note_trace,
-                     run_key_of, std_finish, opseq, op_brief)
+                     run_key_of, std_finish, opseq, op_brief, digest)
 from sim import boot
 from sim.config import build
 from sim.snapshot import apply_record, snapshot, diff
@@ -32,7 +32,8 @@ RULE = ('one run = one simulated hand (any variant, any automation subset, comme
         'completely; histories are sampled')
 ASSUMPTIONS = [
     'the rebuilt state is created from the same game configuration (constructor arguments) as the original',
-    'determinism across processes and hash seeds is measured by selftest/determinism.py (digests of this check included)',
+    'determinism across processes and hash seeds: one run in 150 is executed again in a fresh interpreter under another '
+    'PYTHONHASHSEED (fault hash_seed); selftest/determinism.py measures whole batches',
     'deep copies are taken at quiescent points (between public calls), as game-tree construction does',
 ]
 BIAS = dict(custom_num=1, rakes=('none', 'none', 'pct', 'nfnd'), allow_raw_lists=True)
@@ -148,7 +149,41 @@ def run(ch, ctx):
     for f in forks:
         ctx.count('fork_' + f.kind)
     std_finish(world, ctx, len(st.operations) >= 12)
+    ctx.notes['run_digest'] = digest([op_brief(op) for op in st.operations], snapshot(st, exclude=('deck_cards',)))
+    other_hash_seed(ch, ctx)
     ctx.shape.append((plan, tuple((f.kind, f.at) for f in forks)))
+
+
+def other_hash_seed(ch, ctx):
+    """Fault hash_seed: the whole run is executed again in a FRESH interpreter under another PYTHONHASHSEED (the checks
+    themselves run under 0) and must produce the same operation log and final state - the engine must not depend on the
+    iteration order of a set or dict of hashed objects."""
+    import json
+    import os
+    import subprocess
+    import sys
+    import tempfile
+    if os.environ.get('C15_CHILD') or not ch.chance('c15.hash_seed', 1, 150):
+        return
+    seed = 1 + ch.pick('c15.hash_seed.value', 1000)
+    here = os.path.dirname(os.path.dirname(os.path.abspath(__file__)))
+    with tempfile.NamedTemporaryFile('w', suffix='.json', delete=False) as f:
+        json.dump(list(ch.values), f)
+        path = f.name
+    try:
+        env = dict(os.environ, PYTHONHASHSEED=str(seed), C15_CHILD='1')
+        out = subprocess.run([sys.executable, os.path.join(here, 'run_check.py'), 'C15', '--digest-choices', path],
+                             capture_output=True, text=True, env=env, timeout=120)
+    finally:
+        os.unlink(path)
+    line = next((l for l in out.stdout.splitlines() if l.startswith('RUN-DIGEST')), None)
+    ctx.fault('hash_seed')
+    if line is None:
+        raise Violation('C15.hash_seed', f'the run could not be executed under PYTHONHASHSEED={seed}: {out.stderr[-400:]}')
+    if line.split()[1] != ctx.notes['run_digest']:
+        raise Violation('C15.hash_seed', f'the same choices and deck order give another operation log or final state under '
+                        f'PYTHONHASHSEED={seed} than under {os.environ.get("PYTHONHASHSEED")} (digests {line.split()[1]} vs '
+                        f'{ctx.notes["run_digest"]})')
 
 
 def twice(ch, ctx, world, cfg, run_key):
